@@ -51,7 +51,7 @@ def gen_url(rng):
         if rng.random() < 0.5:
             user += ":" + rng.choice(["pw", "p%40w", "é"])
         user += "@"
-    port = rng.choice(["", "", ":80", ":8080"])
+    port = rng.choice(["", "", ":80", ":8080", ":0", ":65535", ":443", ":1"])
     segs = ["".join(rng.choice([c for c in CH if c not in ("?", "#")]) for _ in range(rng.randint(0, 4))) for _ in range(rng.randint(0, 3))]
     path = "/" + "/".join(segs) if segs else rng.choice(["", "/"])
     q = ""
@@ -160,9 +160,10 @@ def check_builder(W, rec, rng):
                 return
         finally:
             b.close()
-        if "%" not in path and "%" not in root:
+        if True:
             # history: a second builder made from the first request's environ (test client following a redirect,
-            # copying a request) describes the same request
+            # copying a request) describes the same request - also when the decoded path holds characters that mean
+            # something in a URL ('%', '?', '#' that arrived as %25, %3F, %23)
             b3 = EnvironBuilder.from_environ(r.environ)
             try:
                 r3 = b3.get_request(Request)
